@@ -28,3 +28,119 @@ package tracer
 //@   requires h != nil && h.c != nil && h.decoder != nil
 //@   modifies bufContent, rdPos, wrOut, http2FrameTracer.broken, http2.Framer.ReadMetaHeaders, ghosts:h2*, ghosts:cpl*, ghosts:ev*, held
 //@   ensures bufContent[fieldaddr(h, frame)] == "" && (!result ==> h.broken)
+
+// ---- stream table (tracingHTTP2Conn), everything under c.mu ----
+
+//@ frameset h2state: held, tracingHTTP2Conn.streams, tracingHTTP2Conn.maxStreamID, mapof(tracingHTTP2Conn.streams), http2Stream.*, dataTracer.*, builder.*, Trace.*,
+//@    http.Request.*, http.Response.*, map[string][]string, []string, []byte, bufContent, Envelope.*, []Event, eventOffset.*, RequestBodyData.*, ResponseBodyData.*,
+//@    ResponseBodyEndStream.*, RequestBodyEnd.*, ResponseBodyEnd.*, ResponseStart.*, RequestStart.*, ghosts:cpl*, ghosts:ev*, ghosts:*Src, ghosts:hAdd*, trS,
+//@    http2RetryCollector.waiting, mapof(http2RetryCollector.waiting), http2RetryWaitState.*, url.URL.*, ghosts:rtm*
+
+//@ guarded tracingHTTP2Conn: streams, maxStreamID by mu
+
+// a stream has a builder and a request tracer bound to it; its response tracer gets the
+// builder when the response headers arrive (gotResponse); until then it is idle or only counts
+//@ spec wfStream(s *http2Stream) bool = s != nil && s.builder != nil &&
+//@    wfTracer(fieldaddr(s, requestTracer)) && fieldaddr(s, requestTracer).builder == s.builder && !held[fieldaddr(s, requestTracer).mu] && !held[fieldaddr(s, responseTracer).mu] &&
+//@    (fieldaddr(s, responseTracer).builder != nil ?
+//@        (wfTracer(fieldaddr(s, responseTracer)) && fieldaddr(s, responseTracer).builder == s.builder) :
+//@        (!fieldaddr(s, responseTracer).isStreamProtocol && len(fieldaddr(s, responseTracer).prefix) == 0 && fieldaddr(s, responseTracer).expecting == 0 &&
+//@         fieldaddr(s, responseTracer).env == nil && fieldaddr(s, responseTracer).endStream == nil))
+//@ monitor tracingHTTP2Conn by mu: self.collector != nil && forall id int :: has(self.streams, id) ==> wfStream(self.streams[id])
+
+//@ func makeHeaders
+//@   requires frame != nil
+//@   modifies ghosts:hAdd*, map[string][]string
+//@   ensures result != nil && fresh(result)
+//@ func getPseudoHeader
+//@   requires frame != nil
+//@   pure
+//@ func makeRequest
+//@   requires frame != nil
+//@   modifies ghosts:hAdd*, map[string][]string
+//@   ensures result != nil && fresh(result) && result.Header != nil && result.URL != nil
+//@ func makeResponse
+//@   requires frame != nil
+//@   modifies ghosts:hAdd*, map[string][]string
+//@   ensures result != nil && fresh(result) && result.Header != nil
+
+// newBuilder (builder.go): assumed summary - a fresh builder for the request, active exactly
+// when the request carries a test-case name
+//@ func newBuilder
+//@   trusted
+//@   requires req != nil && req.Header != nil
+//@   modifies nothing
+//@   ensures result_0 != nil && fresh(result_0) && result_0.collector == collector && result_0.trace.Request == req && result_0.trace.Response == nil && !held[result_0.mu]
+
+//@ func (*tracingHTTP2Conn).getExistingStreamLocked
+//@   requires c != nil && held[c.mu]
+//@   pure
+//@   ensures result == (has(c.streams, streamID) ? c.streams[streamID] : nil)
+
+// ---- retry collector: a refused attempt waits for a retry of the same test ----
+// rtmStopN counts calls of the stop functions of pending waits (timers)
+//@ ghost rtmStopN: int -> int
+//@ guarded http2RetryCollector: waiting by mu
+//@ mapvalues map[string]*http2RetryWaitState: v != nil && v.stop != nil
+//@ func http2RetryWaitState.stop
+//@   modifies rtmStopN
+//@   ensures rtmStopN[0] == old(rtmStopN[0]) + 1
+
+//@ func (*http2RetryCollector).newAttempt
+//@   requires h != nil
+//@   modifies held, mapof(http2RetryCollector.waiting), ghosts:rtm*
+//@   ensures !held[h.mu] && !has(h.waiting, testName)
+
+// response headers: the response is recorded once and the response tracer is bound to the
+// stream's builder
+//@ func (*tracingHTTP2Conn).receiveResponseLocked
+//@   requires c != nil && held[c.mu] && wfStream(stream) && frame != nil && fieldaddr(stream, responseTracer).builder == nil && fieldaddr(stream, responseTracer).actual == 0
+//@   modifies @h2state
+//@   ensures wfStream(stream) && stream.gotResponse && fieldaddr(stream, responseTracer).builder == stream.builder && held[c.mu]
+//@   ensures c.streams == old(c.streams) && forall id int :: has(c.streams, id) == old(has(c.streams, id)) && c.streams[id] == old(c.streams[id])
+
+// a new stream is registered under the frame's id with a fresh builder and request tracer
+//@ func (*tracingHTTP2Conn).newStreamLocked
+//@   requires c != nil && held[c.mu] && c.collector != nil && frame != nil && frame.HeadersFrame != nil
+//@   requires forall id int :: has(c.streams, id) ==> wfStream(c.streams[id])
+//@   modifies @h2state
+//@   ensures held[c.mu] && wfStream(result) && fresh(result) && has(c.streams, frame.StreamID) && c.streams[frame.StreamID] == result
+//@   ensures forall id int :: has(c.streams, id) ==> wfStream(c.streams[id])
+
+//@ func (*tracingHTTP2Conn).getStreamLocked
+//@   requires c != nil && held[c.mu] && c.collector != nil && frame != nil && frame.HeadersFrame != nil
+//@   requires forall id int :: has(c.streams, id) ==> wfStream(c.streams[id])
+//@   modifies @h2state
+//@   ensures held[c.mu] && (result_0 != nil ==> wfStream(result_0) && has(c.streams, frame.StreamID) && c.streams[frame.StreamID] == result_0)
+//@   ensures !result_1 ==> result_0 == old(has(c.streams, frame.StreamID) ? c.streams[frame.StreamID] : nil)
+//@   ensures forall id int :: has(c.streams, id) ==> wfStream(c.streams[id])
+
+// closing one direction of a stream: the end of the response, or any error, removes the
+// stream from the table; unfinished messages are flushed and the body-end event is added
+//@ func (*tracingHTTP2Conn).closeStreamLocked
+//@   requires c != nil && held[c.mu] && wfStream(stream)
+//@   requires forall id int :: has(c.streams, id) ==> wfStream(c.streams[id])
+//@   modifies @h2state
+//@   ensures held[c.mu] && (!isRequest || err != nil ==> !has(c.streams, streamID))
+//@   ensures forall id int :: has(c.streams, id) ==> wfStream(c.streams[id])
+
+// GOAWAY: streams above the announced id are dropped (with a body-end event each)
+//@ func (*tracingHTTP2Conn).setMaxStreamIDLocked
+//@   option rangedelete
+//@   requires c != nil && held[c.mu]
+//@   requires forall id int :: has(c.streams, id) ==> wfStream(c.streams[id])
+//@   modifies @h2state
+//@   ensures held[c.mu] && c.maxStreamID == maxStreamID
+//@   ensures forall id int :: has(c.streams, id) ==> wfStream(c.streams[id]) && id <= maxStreamID
+//@   loop 0: invariant held[c.mu] && c.streams == atpre(c.streams)
+//@           invariant forall id int :: has(c.streams, id) ==> wfStream(c.streams[id])
+//@           invariant forall id int :: has(c.streams, id) && rangeidx(id) < rangepos ==> id <= maxStreamID
+
+// connection failure / close: every stream is dropped with its final events; the table is empty
+//@ func (*tracingHTTP2Conn).cancelAll$1
+//@   option rangedelete
+//@   requires c != nil && !held[c.mu]
+//@   modifies @h2state
+//@   ensures !held[c.mu] && forall id int :: !has(c.streams, id)
+//@   loop 0: invariant held[c.mu] && c.streams == atlock(c.streams)
+//@           invariant forall id int :: has(c.streams, id) ==> wfStream(c.streams[id]) && rangeidx(id) >= rangepos
